@@ -66,6 +66,11 @@ CHECKS.update({
              text="Generated-input search on the real header: 5k (quick) / 190k (thorough) cases over scalar extremes, strings, vectors, matrices (shape and element positions), rejection of non-scalars / non-double arrays, and wrap/unwrap/release histories against a model of owners and handles.",
              note="Trusted: vlib/mexmock (mock MEX API written from MathWorks' documented semantics, stand-in gtsam containers), the shim c18_shim.cpp. Rebuilt whenever /repo/matlab.h changes.", ref="3/C18"),
 })
+CHECKS.update({
+ 'C09': dict(tech="Hypothesis model-based generation (compilable profile) + textual oracles on every TU (no surviving template parameter, scannable well-formed statements, lambda/py::arg agreement, namespace qualification) + g++ -std=c++17 -fsyntax-only of a drawn sample against a mock library header generated from the model",
+             text="Generated-input search with the compiler in the loop: ~40 (quick) / ~1200 (thorough) TUs compiled against a conforming library emitted from the model, 770 / 16k TUs checked textually. Cannot show absence.",
+             note="Trusted: vlib.cxxmock (the conforming library), g++ 12, the bundled pybind11 headers. Boost serialization output is not compiled (no Boost).", ref="3/C09"),
+})
 PENDING = {}
 
 def main():
